@@ -652,7 +652,7 @@ func (in *Interp) callSSA(caller *frame, pos token.Pos, fn *ssa.Function, args [
 		if !isTarget || len(fr.defers) == 0 || tp.Fatal {
 			panic(escaped)
 		}
-		ps := &panicState{val: tp}
+		ps := &panicState{val: tp, frame: fr}
 		in.panics = append(in.panics, ps)
 		ds := fr.defers
 		fr.defers = nil
@@ -694,6 +694,7 @@ func (in *Interp) callSSA(caller *frame, pos token.Pos, fn *ssa.Function, args [
 type panicState struct {
 	val       targetPanic
 	recovered bool
+	frame     *frame // the panicking frame whose deferred calls are running
 }
 
 func (in *Interp) runBlock(fr *frame) {
@@ -1906,7 +1907,9 @@ func (in *Interp) callBuiltin(caller *frame, fn *ssa.Builtin, args []value) valu
 	case "print", "println":
 		return nil
 	case "recover":
-		if n := len(in.panics); n > 0 && !in.panics[n-1].recovered {
+		// recover stops a panic only when called directly by a deferred function (Go spec): a helper called from
+		// the deferred function gets nil and the panic continues
+		if n := len(in.panics); n > 0 && !in.panics[n-1].recovered && in.curFrame != nil && in.curFrame.caller == in.panics[n-1].frame {
 			ps := in.panics[n-1]
 			ps.recovered = true
 			if iv, ok := ps.val.V.(Iface); ok && iv.T != nil {
